@@ -5,10 +5,45 @@
   through `Hooks` (SimVerif/Drv/Kernel.lean).
 -/
 import SimVerif.Basic
+import SimVerif.Socks
 
 namespace SimVerif.Drv
 
+/-! ### SOCKS proxy (`k<i>` objects; functions in Drv/SocksSrv.lean) -/
+
+/-- one `socks_connection` object -/
+structure SocksConnSt where
+  srv  : String                 -- the server it belongs to
+  c    : Socks.Conn
+  dead : Bool := false          -- destroyed (last shared_ptr released)
+  deriving Repr
+
+/-- one `socks_server` object -/
+structure SocksSrvSt where
+  name     : String
+  node     : String
+  ver      : Int
+  flags    : Nat
+  bindPort : Nat := 2048              -- m_bind_port
+  cnt      : List Int := [0, 0, 0]    -- m_cmd_counts
+  cur      : Nat := 0                 -- m_conn (index into `conns`)
+  deriving Repr
+
+/-- what a handler id of the SOCKS range completes -/
+inductive SocksRef where
+  | accept (srv : String)                   -- socks_server::on_accept
+  | conn (ci : Nat) (op : Socks.POp)        -- a pending operation of connection `ci`
+  deriving Repr
+
+structure SocksSt where
+  srvs   : List SocksSrvSt := []
+  conns  : List SocksConnSt := []           -- index = connection id
+  ops    : List (Nat × SocksRef) := []      -- handler id ↦ what it completes
+  nextOp : Nat := 0                         -- handler ids are 3200000 + nextOp
+  deriving Repr
+
 structure ExtSt where
   unused : Unit := ()
+  socks  : SocksSt := {}
 
 end SimVerif.Drv
